@@ -9,6 +9,7 @@ import JumanjiModel.Env.FlatPack.FeasLemmas
 import JumanjiModel.Env.FlatPack.SpecLemmas
 import JumanjiModel.Env.FlatPack.InvLemmas
 import JumanjiModel.Env.FlatPack.CoverLemmas
+import JumanjiModel.Env.FlatPack.BoundsLemmas
 open Jm FlatPack
 
 namespace Props.C04
@@ -160,3 +161,27 @@ namespace Props.C12
 theorem flatpack_obs_faithful (rnd : Rat → Rat) (cfg : Cfg) (s : State) (a : Action) :
     (step rnd cfg s a).2.obs = observe (step rnd cfg s a).1 := FlatPack.obs_faithful rnd cfg s a
 end Props.C12
+
+namespace Props.C01
+open PzB
+/-- the observation returned by `reset` on a generated state (blocks well-formed: `blocksOK`; empty grid; nothing placed)
+whose blocks are numbered within 1 … num_blocks (`BlocksBounded`): every leaf listed in `obsBounds cfg` is present and
+within its interval: `grid`, `blocks` ∈ [0, num_blocks], `action_mask` ∈ [0,1] -/
+theorem flat_pack_reset_obs_in_bounds (cfg : Cfg) (s : State) (hbo : blocksOK cfg s = true)
+    (hg : s.grid = Jx.Grid.mk cfg.numRows cfg.numCols 0) (hp : s.placed = List.replicate cfg.numBlocks false)
+    (hb : BlocksBounded cfg s.blocks) : ObsInBounds (obsBounds cfg) (obsLeaves (resetTimeStep s).obs) :=
+  FlatPack.reset_obs_in_bounds cfg s hbo hg hp hb
+
+/-- the same for `step`, for every state satisfying the invariant `Inv` of C06 (feasible + cached mask = legal moves;
+preserved by every in-spec step: `flatpack_step_inv`) with bounded blocks, every action of the action space (legal or
+not), any float rounding, terminal step included.  The grid bound needs feasibility: placed blocks do not overlap, so no
+cell is the sum of two block numbers. -/
+theorem flat_pack_step_obs_in_bounds (rnd : Rat → Rat) (cfg : Cfg) (s : State) (b k r c : Nat) (hi : Inv cfg s)
+    (hin : inSpec cfg b k r c = true) (hb : BlocksBounded cfg s.blocks) :
+    ObsInBounds (obsBounds cfg) (obsLeaves (step rnd cfg s (act b k r c)).2.obs) :=
+  FlatPack.step_obs_in_bounds rnd cfg s b k r c hi hin hb
+
+/-- `BlocksBounded` is preserved trivially (the blocks never change) -/
+theorem flatpack_blocks_unchanged (rnd : Rat → Rat) (cfg : Cfg) (s : State) (a : Action) :
+    (step rnd cfg s a).1.blocks = s.blocks := by simp [step]
+end Props.C01
